@@ -51,7 +51,18 @@ def c_data(kvs):
 def c_dentry(e):
     if "m" in e:
         return "(DMap %s)" % clist(["(%s, %s)" % (cz(k), cz(v)) for k, v in e["m"]], "(Z * Z)")
-    return "(DOther %s)" % cz(e["o"])
+    o = e["o"]
+    if o is None:
+        return "(DOther ONone)"
+    if isinstance(o, bool):
+        raise ValueError("deck entry %r not expressible in the model" % (o,))
+    if isinstance(o, int):
+        return "(DOther (OInt %s))" % cz(o)
+    if isinstance(o, str):
+        return "(DOther (OStr %s))" % clist([cz(ord(ch)) for ch in o], "Z")
+    if isinstance(o, list) and all(isinstance(x, int) and not isinstance(x, bool) for x in o):
+        return "(DOther (OList %s))" % clist([cz(x) for x in o], "Z")
+    raise ValueError("deck entry %r not expressible in the model" % (o,))
 
 
 def c_share(data, stamp, deck):
@@ -127,7 +138,8 @@ Definition line_eqb (a b : line) := match a, b with
 Definition file_eqb (a b : option (list line)) := match a, b with Some x, Some y => l_eqb line_eqb x y | None, None => true | _, _ => false end.
 Definition kv_eqb (a b : Z * val) := Z.eqb (fst a) (fst b) && val_eqb (snd a) (snd b).
 Definition kz_eqb (a b : Z * Z) := Z.eqb (fst a) (fst b) && Z.eqb (snd a) (snd b).
-Definition de_eqb (a b : dentry) := match a, b with DMap x, DMap y => l_eqb kz_eqb x y | DOther x, DOther y => Z.eqb x y | _, _ => false end.
+Definition ot_eqb (a b : other) := match a, b with ONone, ONone => true | OInt x, OInt y => Z.eqb x y | OStr x, OStr y => l_eqb Z.eqb x y | OList x, OList y => l_eqb Z.eqb x y | _, _ => false end.
+Definition de_eqb (a b : dentry) := match a, b with DMap x, DMap y => l_eqb kz_eqb x y | DOther x, DOther y => ot_eqb x y | _, _ => false end.
 Definition sh_eqb (a b : share) := l_eqb kv_eqb (sdata a) (sdata b) && oz_eqb (sstamp a) (sstamp b) && l_eqb de_eqb (sdeck a) (sdeck b).
 Definition r_eqb (a b : option (list line) * list share) := file_eqb (fst a) (fst b) && l_eqb sh_eqb (snd a) (snd b).
 """
@@ -272,7 +284,8 @@ def spec_check(case, res):
                 if ran_this_tick and exp and exp[-1][0] == tick:
                     late = True
         elif o == "push":
-            shares[op[1]]["deck"].append(op[2])
+            e = op[2]
+            shares[op[1]]["deck"].append({"m": [list(kv) for kv in e["m"]]} if "m" in e else {"o": e["o"]})
         elif o == "append":
             v = shares[op[1]]["data"].get(op[2])
             if isinstance(v, list):
@@ -392,8 +405,11 @@ def rnd_write(rng, shares, rule):
     s = rng.randrange(len(shares))
     if rule == "deck" and rng.random() < 0.6:
         if rng.random() < 0.8:
-            return ["push", 0, {"m": [[k, rng.randint(0, 9)] for k in rng.sample(range(3), rng.randint(0, 3))]}]
-        return ["push", 0, {"o": rng.randint(0, 9)}]
+            return ["push", 0, {"m": [[k, rng.randint(0, 9)] for k in rng.sample(range(3), rng.randint(0, 3))],
+                                "plain": rng.random() < 0.3}]
+        if rng.random() < 0.5:
+            return ["push", 0, {"o": rng.randint(0, 9)}]
+        return ["push", 0, {"o": rng.choice([None, None, 0, "", [], "ab", [0], [3, 1]])}]
     if rule == "streak" and rng.random() < 0.7:
         v0 = shares[0]["data"][0][1] if shares[0]["data"] else None
         if isinstance(v0, dict) and "m" in v0:
@@ -464,6 +480,54 @@ def streak_bursts(rng, n):
     return out
 
 
+# deck entries whose truth value is False although they are queued elements like any other: None, 0, '', [] are
+# not mappings (consumed and skipped), {} (odict / plain dict) IS a mapping (a record of bare tabs); plus truthy
+# non-mappings of the same sorts
+FALSY = [{"o": None}, {"o": 0}, {"o": ""}, {"o": []}, {"m": []}, {"m": [], "plain": True}]
+TRUTHY_OTHER = [{"o": 7}, {"o": "ab"}, {"o": [0]}]
+
+
+def deck_falsy_cases(rng, nrand):
+    """directed, runs first: rule deck with None / 0 / '' / [] / {} queued before, between and behind mappings,
+    drained by START, by a later RUN and by STOP; all pairs of special entries in front of a mapping; every deck of
+    length 3 over {mapping, None, 0, {}} drained by one run; plus `nrand` random decks dense in special entries"""
+    out = []
+    nxt = [0]
+
+    def m(keys=(0, 1)):
+        nxt[0] += 1
+        return {"m": [[k, (nxt[0] + 3 * k) % 10] for k in keys]}
+
+    def case(pre, mid, last, sel=(0, 1), stop=True):
+        ops = [["push", 0, e] for e in pre] + [["start"], ["tick"]]
+        ops += [["push", 0, e] for e in mid] + [["run"], ["tick"]]
+        ops += [["push", 0, e] for e in last] + ([["stop"]] if stop else [])
+        return {"shares": [{"data": [[0, 1], [1, 2]], "stamped": True}], "rule": "deck",
+                "loggees": [[0, 0, list(sel)]], "pre": None, "ops": ops}
+
+    specials = FALSY + TRUTHY_OTHER
+    for f in specials:
+        for lay in ([f], [f, m()], [m(), f], [m(), f, m()], [f, f, m((1,))], [m((0,)), f, m(), f, m((1, 0))]):
+            out.append(case(lay, [], []))          # drained by START
+            out.append(case([], lay, []))          # by a later RUN
+            out.append(case([m()], [], lay))       # by STOP
+        out.append(case([m(), f], [f, m()], [m(), f, m()], sel=(1, 0, 2)))
+        out.append(case([f, m()], [m(), f], [], stop=False))     # left queued: never run again
+    for f in specials:
+        for g in specials:
+            out.append(case([f, g, m()], [g, m(), f], []))
+    small = [None, {"o": None}, {"o": 0}, {"m": []}]
+    for trio in itertools.product(small, repeat=3):
+        out.append(case([], [m((0,)) if e is None else e for e in trio], [m()]))
+    for _ in range(nrand):
+        def burst():
+            return [rng.choice(specials) if rng.random() < 0.6 else m(rng.choice([(0,), (1,), (0, 1), (2, 0)]))
+                    for _ in range(rng.randint(0, 5))]
+        out.append(case(burst(), burst(), burst(), sel=rng.choice([(0,), (0, 1), (1, 0, 2)]),
+                        stop=rng.random() < 0.8))
+    return out
+
+
 def has_late_write(case):
     lg = set(s for _, s, _ in case["loggees"])
     ran = False
@@ -484,11 +548,15 @@ WITNESS = {"shares": [{"data": [[0, 1]], "stamped": True}], "rule": "update", "l
 def run(ctx):
     ctx.rule = ("histories of share writes (update/change/push/append, same or different values, before or "
                 "after the logger within a tick, across ticks) and logger controls (START/RUN/STOP incl. "
-                "restarts) for every rule and field selection, run on the real Logger/Log and on the Coq model; "
+                "restarts) for every rule and field selection; deck entries are mappings (incl. the empty mapping, "
+                "odict or plain dict) and non-mappings None / ints incl. 0 / strings incl. '' / lists incl. [] "
+                "(directed family `falsy` first: such entries before, between and behind mappings, drained by "
+                "START / RUN / STOP); run on the real Logger/Log and on the Coq model; "
                 "log file lines and final shares compared; non-trivial = at least two logger runs and one share "
                 "write; distinct by full case")
     ctx.assumptions = [
-        "store.stamp = tick * 0.125 (exact in binary64); field values are ints (lists of ints for the streak field)",
+        "store.stamp = tick * 0.125 (exact in binary64); field values are ints (lists of ints for the streak field); "
+        "non-mapping deck entries are None, ints, strings or lists of ints",
         "one Log per Logger; text kind; no field deletion; controls as the Skedder produces them (RUN/STOP only "
         "reach a started logger)",
         "restart (STOP then START) re-bases rule change's lasts in prepare(): modelled faithfully, excluded "
@@ -497,6 +565,8 @@ def run(ctx):
     ctx.coq_build("C22/Props.v")
 
     cases = []
+    for c in deck_falsy_cases(ctx.rng, ctx.n(60, 1500)):      # directed family, first, in every tier
+        cases.append(("falsy", c))
     for c in exhaustive_cases(ctx.n(4, 5)):
         cases.append(("exh", c))
     for rule in RULES:
